@@ -610,6 +610,7 @@ pub struct SinkState {
     first: bool,
     /// accepted length + type bytes of the chunk that is being written
     hdr: Vec<u8>,
+    counted: bool,
     /// accepted data + CRC bytes of the current chunk still to come
     left: u64,
 }
@@ -633,6 +634,7 @@ impl SharedSink {
             in_empty_chunk_op: false,
             first: true,
             hdr: vec![],
+            counted: false,
             left: 0,
         })))
     }
@@ -687,24 +689,30 @@ impl Write for SharedSink {
                     off = 8;
                 }
             }
-            let at_start = s.hdr.is_empty() && s.left == 0;
-            let rest = &buf[off..];
-            if at_start && rest.len() >= 4 && rest[..4] == [0, 0, 0, 0] {
-                if rest.len() >= 8 {
-                    if &rest[4..8] == b"IEND" {
+            // the header bytes of the current chunk as far as they are known: accepted ones plus the ones offered now
+            if s.left == 0 && !s.counted {
+                let mut view = s.hdr.clone();
+                view.extend_from_slice(&buf[off..buf.len().min(off + 8)]);
+                if view.len() >= 4 && view[..4] == [0, 0, 0, 0] {
+                    if view.len() >= 8 {
+                        if &view[4..8] == b"IEND" {
+                            s.iend_attempts += 1;
+                            s.counted = true;
+                        }
+                    } else if !complete && !s.in_empty_chunk_op {
                         s.iend_attempts += 1;
+                        s.counted = true;
                     }
-                } else if !complete && !s.in_empty_chunk_op {
-                    s.iend_attempts += 1;
                 }
-            } else if s.hdr.len() == 4 && s.hdr[..] == [0, 0, 0, 0] && rest.len() >= 4 && &rest[..4] == b"IEND" {
-                s.iend_attempts += 1;
             }
             // advance over the ACCEPTED bytes
             let accepted = match outcome { Ok(n) => n, Err(()) => 0 };
             for &b in &buf[off.min(accepted)..accepted] {
                 if s.left > 0 {
                     s.left -= 1;
+                    if s.left == 0 {
+                        s.counted = false;
+                    }
                 } else {
                     s.hdr.push(b);
                     if s.hdr.len() == 8 {
@@ -724,6 +732,7 @@ impl Write for SharedSink {
                 // the encoder starts over with a new chunk after a failed write
                 s.hdr.clear();
                 s.left = 0;
+                s.counted = false;
                 Err(io::Error::new(io::ErrorKind::Other, "injected"))
             }
             Ok(n) => {
